@@ -225,6 +225,63 @@ contract(AS + '::Autoscaler._scale_bound', ['C20'],
          modifies=[], native=native_bound,
          canaries=[('sentinel not restored', ('val_arr[inf_mask] = -INF_BOUND if is_lower else INF_BOUND', 'pass'), 'post'),
                    ('adder skipped', ('if adder is not None:', 'if adder is not None and False:'), 'post')])
+REGISTRY[AS + '::Autoscaler._scale_bound'][0].returns = Arr('n')     # a fresh array of length n (callers are verified against this contract)
+
+
+# ---------------------------------------------------------------------------------------------
+# _compute_scaled_bounds, body of the per-variable loop (mechanically extracted fragment '@loopbody(scaler)'): the slice of
+# the bounds vectors that belongs to one constraint is the affine image of the MODEL-unit bounds, written nowhere else,
+# and the model-unit metadata (lower / upper / equals, adder, scaler) is left untouched — get_bounds_scaling documents
+# "the original metadata bounds remain in physical (model) units and are not modified".
+GM = "self._var_meta['constraint']['g']"
+
+
+def _csb_self(lo, up, eq):
+    m = {'total_adder': OneOf(None, Real(), Arr('n')), 'total_scaler': OneOf(None, Real(), Arr('n')), 'size': Size('n')}
+    if lo is not None:
+        m['lower'] = lo
+    if up is not None:
+        m['upper'] = up
+    m['equals'] = eq
+    return Obj('Autoscaler', _var_meta=DictT({'constraint': DictT({'g': DictT(m)})}))
+
+
+def _img(src, i='i'):
+    a = "(0 if {m}['total_adder'] is None else ({m}['total_adder'] if is_scalar({m}['total_adder']) else {m}['total_adder'][{i}]))".format(m=GM, i=i)
+    sc_ = "(1 if {m}['total_scaler'] is None else ({m}['total_scaler'] if is_scalar({m}['total_scaler']) else {m}['total_scaler'][{i}]))".format(m=GM, i=i)
+    v = "({s} if is_scalar({s}) else {s}[{i}])".format(s=src, i=i)
+    return v, '((%s + %s) * %s)' % (v, a, sc_)
+
+
+for _lo, _up, _eq in ((Arr('n'), Real(), None), (None, Arr('n'), None), (Real(), None, None), (None, None, Arr('n')), (None, None, Real())):
+    ens = []
+    for nm, src, unb, sent in (('lower_data', _lo, '<= -INF_BOUND', '-INF_BOUND'), ('upper_data', _up, '>= INF_BOUND', 'INF_BOUND')):
+        if src is None:
+            ens.append('all(%s[s0 + i] == %s for i in range(n))' % (nm, sent))
+        else:
+            v, img = _img("%s['%s']" % (GM, 'lower' if nm == 'lower_data' else 'upper'))
+            ens.append('all(%s[s0 + i] == (%s if %s %s else %s) for i in range(n))' % (nm, sent, v, unb, img))
+        ens.append('all(implies(not (s0 <= j and j < s0 + n), %s[j] == old(%s[j])) for j in range(N))' % (nm, nm))
+    if _eq is None:
+        ens.append('all(equals_data[j] == old(equals_data[j]) for j in range(N))')
+    else:
+        v, img = _img("%s['equals']" % GM)
+        ens.append('all(equals_data[s0 + i] == (INF_BOUND if %s >= INF_BOUND else %s) for i in range(n))' % (v, img))
+        ens.append('all(implies(not (s0 <= j and j < s0 + n), equals_data[j] == old(equals_data[j])) for j in range(N))')
+    contract(AS + '::Autoscaler._compute_scaled_bounds@loopbody(scaler)', ['C20'],
+             dict(self=_csb_self(_lo, _up, _eq), voi_type='constraint', name='g',
+                  vmeta=DictT({'slice': SliceT('s0', 's1'), 'size': Size('n')}),
+                  lower_data=Arr('N'), upper_data=Arr('N'), equals_data=Arr('N')),
+             requires=['n >= 1', 's0 >= 0', 's1 == s0 + n', 's1 <= N'],
+             ensures=ens,
+             # frame: ONLY the three bounds vectors are written; the model-unit metadata is not in the list
+             modifies=['lower_data', 'upper_data', 'equals_data'],
+             name=AS + '::Autoscaler._compute_scaled_bounds[bounds of one constraint: lower=%s, upper=%s, equals=%s]' % tuple(
+                 type(x).__name__ for x in (_lo, _up, _eq)),
+             canaries=[('equality target scaled in place (model-unit metadata overwritten)',
+                        ("equals_data[s] = self._scale_bound(\n                        eq, adder, scaler, size, is_lower=False)",
+                         "if adder is not None:\n                        eq += adder\n                    if scaler is not None:\n                        eq *= scaler\n                    equals_data[s] = eq"), 'post', AS + '::Autoscaler._compute_scaled_bounds')]
+             if isinstance(_eq, Arr) else [])
 
 
 # ---------------------------------------------------------------------------------------------
